@@ -299,9 +299,9 @@ def load_known_findings():
     return res
 
 
-def prepare(workdir, canary=False, skip_body=()):
+def prepare(workdir, canary=False, skip_body=(), force_external=()):
     os.makedirs(workdir, exist_ok=True)
-    image, maps = gen.build_image(os.path.join(REPO, 'src'), canary=canary, skip_body=skip_body)
+    image, maps = gen.build_image(os.path.join(REPO, 'src'), canary=canary, skip_body=skip_body, force_external=force_external)
     name = 'canary' if canary else 'proof'
     d = os.path.join(workdir, name)
     os.makedirs(d, exist_ok=True)
@@ -386,7 +386,8 @@ def decide(props, a, seed, workdir, t0):
     # renamed, a statement moved), drop that function's body annotations and verify again.  Failures in such a
     # function are then only reported with a concrete witness.
     skip_body = set()
-    for _round in range(3):
+    force_external = set()
+    for _round in range(5):
         fe = [f for f in fails if f['kind'] == 'frontend']
         if not fe or (vr['json'] and vr['json'].get('verification-results', {}).get('verified')):
             break
@@ -397,17 +398,48 @@ def decide(props, a, seed, workdir, t0):
             for ln in f['lines']:
                 k = lookup(ln)
                 rng = [r for r in maps['fn_ranges'] if r[0] <= ln <= r[1]]
-                if k and k in maps['contracts'] and k not in skip_body and rng and ln > min(r[3] for r in rng):
+                if not k or not rng or ln <= min(r[3] for r in rng):
+                    continue
+                c = maps['contracts'].get(k)
+                has_body_annotations = bool(c) and k not in skip_body and not c.get('external_body')
+                if has_body_annotations:
                     new_skip.add(k)
+                elif k not in force_external and k in maps['fn_index']:
+                    # the real body itself is outside what Verus accepts (or still rejected without its annotations):
+                    # leave the body outside the image; its contract is then ASSUMED for callers and every clause of
+                    # it is reported as unverified (decided by a concrete witness)
+                    new_skip.add('!' + k)
         if not new_skip:
             break
-        skip_body |= new_skip
-        ppath, image, maps = prepare(workdir, canary=False, skip_body=skip_body)
+        for k in new_skip:
+            if k.startswith('!'):
+                force_external.add(k[1:])
+            else:
+                skip_body.add(k)
+        ppath, image, maps = prepare(workdir, canary=False, skip_body=skip_body, force_external=force_external)
         lookup = build_fnkey_lookup(image, maps)
         image_lines = image.split('\n')
         vr = run_verus(ppath, os.path.dirname(ppath), None, 8)
         fails = classify(vr, maps, image_lines, lookup)
         mark_frontend(vr, fails)
+    for k in maps.get('forced_external', []):
+        lis = [i for i, l in enumerate(maps['labels']) if l['fn'] == k]
+        fails.append({'kind': 'verification', 'message': 'function body is outside what the Verus front end accepts; its contract is unverified',
+                      'labels': lis, 'fn': k, 'lines': [], 'rendered': 'unverified (forced external_body): %s' % k, 'unverified': True})
+        if not lis:
+            fails.append({'kind': 'verification', 'message': 'function body is outside what the Verus front end accepts', 'labels': [], 'fn': k,
+                          'lines': [], 'rendered': 'unverified (forced external_body): %s' % k, 'unverified': True})
+    if (skip_body or force_external) and cr is not None:
+        # the canary image must be degraded the same way as the proof image; the canary guards the vacuity of the
+        # CONTRACTS (which do not depend on the tree), so if it still cannot be built it is skipped for this run
+        try:
+            cpath, cimage, cmaps = prepare(workdir, canary=True, skip_body=skip_body, force_external=force_external)
+            clookup = build_fnkey_lookup(cimage, cmaps)
+            cr = run_verus(cpath, os.path.dirname(cpath), None, 8)
+        except (gen.LostAnchor, rustscan.ScanError):
+            cr = None
+    if cr is not None and (cr['json'] is None or not (cr['json'].get('verification-results', {}).get('verified') or cr['json'].get('verification-results', {}).get('errors'))):
+        cr = None
     frame_files, frame_hits = frame_scan(REPO)
     if os.environ.get('VF_DEV'):
         for f in fails:
@@ -518,6 +550,8 @@ def decide_one(p, a, seed, t0, vr, cr, seeds, kr, fails, maps, image, lookup, co
             role = role_of(p, default_safety(f['fn'], contracts))
         if role is None:
             continue
+        if role == 'primary' and f.get('unverified'):
+            role = 'secondary'
         if role == 'primary' and f['fn'] in maps.get('lost_anchors', {}):
             # the proof of this function lost an anchor: a failure here is undecided until a concrete witness is found
             role = 'secondary'
